@@ -7,7 +7,7 @@ from .c09 import tup
 
 PID = "C10"
 META = {
-    "explanation": "Static analysis on the MIR of the current tree: the V1 arm of Metadata::read_from is decoded into its seek distance, read sequence and field sources (root offset u64 LE, codec id u8 validated through from_u8, count u64 LE, index_levels = constant 0, 17+4 bytes, magic 0x76324D4C -> FormatV1) and compared with the statement, with the V1 arm of write_into and (thorough) with grenad 0.4.7; the V1 and V2 read arms are the same skeleton up to the trailing levels byte; and a who-may-read analysis shows that Metadata.file_version is read only by the public getter, the trailer writer and derived impls — no cursor, iterator, block or merger code can branch on the version, so every query result is a function of the other four metadata fields and the block bytes alone. 'Identical results' therefore reduces to C02–C05 on the shared code path.",
+    "explanation": "Static analysis on the MIR of the current tree: the V1 arm of Metadata::read_from is decoded into its seek distance, read sequence and field sources (root offset u64 LE, codec id u8 validated through from_u8, count u64 LE, index_levels = constant 0, 17+4 bytes, magic 0x76324D4C -> FormatV1) and compared with the statement, with the V1 arm of write_into and (thorough) with grenad 0.4.7; the V1 and V2 read arms are the same skeleton up to the trailing levels byte; and a who-may-read analysis shows that Metadata.file_version is read only by the public getter, the trailer writer and derived impls — no cursor, iterator, block or merger code can branch on the version, so every query result is a function of the other four metadata fields and the block bytes alone. 'Identical results' therefore reduces to C02–C05 on the shared code path. Reader::new is the trailer read with its error propagated and nothing else.",
     "assumptions": ["byteorder read widths", "C02-C05 for the shared query code"],
 }
 
